@@ -667,7 +667,17 @@ def eval_ann(ctx, terms, with_model=True, origin="gen"):
         supported = m is None or m.get("S") == "1"
         dcls = None
         conforms = True
+        # ---- the property on the implementation: all readings agree up to representation
+        cs = {k: (v if (v is None or v == "EXC") else canon_res(v)) for k, v in impl.items()}
+        keys = [k for k in cs if cs[k] is not None]
+        ref = cs["rt"] if cs.get("rt") is not None else None
+        bad = [k for k in keys if cs[k] != ref] if ref is not None else []
+        if ref is None and len({repr(cs[k]) for k in keys}) > 1:
+            bad = keys
         if m is not None:
+            if m["D"] != "-":
+                dcls = m["D"].split(",")[0]
+                ctx.tag("ann_D_" + dcls)
             mm = {"ast": m["ast"], "str": m["ast"], "rt": m["rt"], "src": m["vis"], "qsrc": m["visq"]}
             if not supported:
                 ctx.tag("ann_unsupported")
@@ -678,16 +688,22 @@ def eval_ann(ctx, terms, with_model=True, origin="gen"):
                     continue
                 # the visitor may show the same annotation error once per pass: compare "some error" only there
                 c = cmp_res(iv, mv, errs_exact=stream not in ("src", "qsrc"))
-                if c == "order" and stream == "src":
-                    # the visitor subscripts typing objects itself; typing's subscription cache (keyed by `==`) may hand back an
-                    # equal object built earlier with another member order
+                if c == "order" and stream in ("src", "rt"):
+                    # typing's subscription cache is keyed by `==`, which ignores union member order: `List[int | str]` may hand back
+                    # an equal object built earlier (in this very expression, or — for the visitor, which subscripts typing objects
+                    # itself — in this module) with another member order
                     ctx.tag("ann_typing_cache_order")
                     c = "eq"
                 if supported:
                     ctx.corr(stream)
                     if c != "eq":
                         conforms = False
-                        ctx.disagree(stream, case, iv, mv)
+                        if dcls is not None and not bad:
+                            # inside an exception class no theorem speaks: the implementation may agree with the (defective)
+                            # model, or satisfy the property (the defect has been repaired); only differ-and-fail is new
+                            ctx.tag("ann_repaired_in_" + dcls)
+                        else:
+                            ctx.disagree(stream, case, iv, mv)
                 elif c != "eq":
                     ctx.tag("ann_unsupported_diff")
             # spec validation: typing's own normalisation
@@ -698,24 +714,15 @@ def eval_ann(ctx, terms, with_model=True, origin="gen"):
             if tn is not None and supported:
                 ctx.corr("typing")
                 if tn != m["tn"]:
-                    ctx.disagree("typing", case, tn, m["tn"])
-            if m["D"] != "-":
-                dcls = m["D"].split(",")[0]
-                ctx.tag("ann_D_" + dcls)
+                    if sexp_canon(tn) == sexp_canon(m["tn"]):
+                        ctx.tag("ann_typing_cache_order")
+                    else:
+                        ctx.disagree("typing", case, tn, m["tn"])
             if m["R"] != "-":
                 ctx.tag("ann_R_" + m["R"])
         if len(ctx.samples) < 6 and i % 211 == 0:
             ctx.sample({"expr": E, "pyanalyze": impl, "model": m})
-        # ---- the property on the implementation: all readings agree up to representation
-        if not supported:
-            continue
-        cs = {k: (v if (v is None or v == "EXC") else canon_res(v)) for k, v in impl.items()}
-        keys = [k for k in cs if cs[k] is not None]
-        ref = cs["rt"] if cs.get("rt") is not None else None
-        bad = [k for k in keys if cs[k] != ref] if ref is not None else []
-        if ref is None and len({repr(cs[k]) for k in keys}) > 1:
-            bad = keys
-        if bad:
+        if supported and bad:
             what = "readings of the annotation differ: " + "; ".join("%s=%s" % (k, impl[k]) for k in ("ast", "str", "rt", "src", "qsrc"))
             ctx.candidate(case, what, cls=dcls, conforms=conforms, stream="ann")
 
@@ -782,9 +789,35 @@ SMALL_DFLT = [("int", 1), ("none",), "ell"]
 
 
 def small_headers():
-    """Every kind sequence with <= 3 parameters; annotations/defaults vary over a small set (rotated, not the full product)."""
+    """Every kind sequence with <= 3 parameters; annotations/defaults vary over a small set (rotated for 3 parameters; the full
+    product of annotation choices for <= 2 parameters)."""
     out = []
     k = 0
+    for n in range(1, 3):
+        for kinds in itertools.product(range(5), repeat=n):
+            if any(kinds[i] > kinds[i + 1] for i in range(n - 1)) or kinds.count(2) > 1 or kinds.count(4) > 1:
+                continue
+            for anns in itertools.product(SMALL_ANN, repeat=n):
+                for dflt in (None, ("int", 1)):
+                    h = hdr()
+                    for i, kd in enumerate(kinds):
+                        arg = (PNAMES[i], anns[i])
+                        if kd == 0:
+                            h["po"].append(arg)
+                        elif kd == 1:
+                            h["pk"].append(arg)
+                        elif kd == 2:
+                            h["vp"] = arg
+                        elif kd == 3:
+                            h["ko"].append(arg)
+                            h["kd"].append(dflt)
+                        else:
+                            h["vk"] = arg
+                    if dflt is not None and kinds[-1] < 2:
+                        h["df"].append(dflt)
+                    elif dflt is not None and 3 not in kinds:
+                        continue
+                    out.append(h)
     for n in range(4):
         for kinds in itertools.product(range(5), repeat=n):
             if any(kinds[i] > kinds[i + 1] for i in range(n - 1)) or kinds.count(2) > 1 or kinds.count(4) > 1:
@@ -935,6 +968,18 @@ def cmp_sig(iv, mv):
     ca = ([(n, k, d, canon(t) if t else t) for n, k, d, t in a[0]], canon(a[1]) if a[1] else a[1], a[2])
     cb = ([(n, k, d, canon(t) if t else t) for n, k, d, t in b[0]], canon(b[1]) if b[1] else b[1], b[2])
     return "order" if ca == cb else "diff"
+
+
+def _nk(x):
+    """names, kinds, default presence of a signature string"""
+    ps = parse_sig(x)
+    return x if ps is None else [(n, k, d != "-") for n, k, d, _ in ps[0]]
+
+
+def _av(x):
+    """annotation values (canonical) of a signature string"""
+    ps = parse_sig(x)
+    return x if ps is None else ([(n, canon(t) if t else t) for n, _, _, t in ps[0]], canon(ps[1]) if ps[1] else ps[1])
 
 
 def canon_sig(s):
@@ -1140,7 +1185,20 @@ def eval_sig(ctx, headers, with_model=True):
         supported = m is None or m.get("S") == "1"
         dcls, conforms = None, True
         idef, iinsp = norm_exc(res_def[i]), norm_exc(res_insp[i])
+        # ---- the property on the implementation
+        sig_bad = ("UNENC" not in str(idef) and "UNENC" not in str(iinsp) and canon_sig(idef) != canon_sig(iinsp))
+        call_bad = []
+        if verdict_in[i] is not None:
+            for j, c in enumerate(calls_for(h)):
+                a = "incompatible_call" in verdict_in[i][j] or "incompatible_argument" in verdict_in[i][j]
+                b = "incompatible_call" in verdict_out[i][j] or "incompatible_argument" in verdict_out[i][j]
+                ctx.count(1, call=1)
+                if a != b:
+                    call_bad.append((j, c, a, b))
         if m is not None:
+            if m["D"] != "-":
+                dcls = m["D"].split(",")[0]
+                ctx.tag("sig_D_" + dcls)
             for stream, iv, mv in (("def", idef, strip_errs(m["def"])), ("insp", iinsp, strip_errs(m["insp"]))):
                 if "UNENC" in str(iv) or not supported:
                     ctx.tag("sig_unencodable_or_unsupported")
@@ -1151,7 +1209,17 @@ def eval_sig(ctx, headers, with_model=True):
                     ctx.tag("sig_typing_cache_order")  # see eval_ann: typing's `==`-keyed subscription cache
                 elif c != "eq":
                     conforms = False
-                    ctx.disagree(stream, case, iv, mv)
+                    # inside a class no theorem speaks (see eval_ann). A header may lie in several classes, each about one aspect:
+                    # a difference from the model in an aspect is excused when that aspect's class is present and the
+                    # implementation's two routes agree on the aspect (the defect has been repaired)
+                    classes = m["D"].split(",") if m["D"] != "-" else []
+                    nk_same, av_same = _nk(iv) == _nk(mv), _av(iv) == _av(mv)
+                    ex_nk = nk_same or ("dunderPosOnly" in classes and _nk(idef) == _nk(iinsp))
+                    ex_av = av_same or (any(c_ != "dunderPosOnly" for c_ in classes) and _av(idef) == _av(iinsp))
+                    if classes and ((not sig_bad and not call_bad) or (not (nk_same and av_same) and ex_nk and ex_av)):
+                        ctx.tag("sig_repaired_in_class")
+                    else:
+                        ctx.disagree(stream, case, iv, mv)
             if res_inspect[i] is not None and supported:
                 ctx.corr("inspect")
                 if res_inspect[i] != m["isig"]:
@@ -1159,33 +1227,35 @@ def eval_sig(ctx, headers, with_model=True):
                         ctx.tag("sig_typing_cache_order")
                     else:
                         ctx.disagree("inspect", case, res_inspect[i], m["isig"])
-            if m["D"] != "-":
-                dcls = m["D"].split(",")[0]
-                ctx.tag("sig_D_" + dcls)
             if m["R"] != "-":
                 ctx.tag("sig_R_" + m["R"].replace(",", "+"))
         if len(ctx.samples) < 10 and i % 97 == 0:
             ctx.sample({"def": defsrc[i], "def_route": idef, "inspect_route": iinsp, "model": m})
         if not supported:
             continue
-        # ---- property: the two signatures agree up to representation
-        if "UNENC" not in str(idef) and "UNENC" not in str(iinsp):
-            if canon_sig(idef) != canon_sig(iinsp):
-                ctx.candidate(case, "signature from the def node differs from the signature from the function object: def=%s inspect=%s"
-                              % (idef, iinsp), cls=dcls, conforms=conforms, stream="sig")
-        # ---- property: the same call gets the same verdict in both modules
-        if verdict_in[i] is not None:
-            cs = calls_for(h)
-            for j, c in enumerate(cs):
-                a = "incompatible_call" in verdict_in[i][j] or "incompatible_argument" in verdict_in[i][j]
-                b = "incompatible_call" in verdict_out[i][j] or "incompatible_argument" in verdict_out[i][j]
-                ctx.count(1, call=1)
-                if a != b:
-                    ctx.candidate(dict(case, call="f(%s)" % c, cpython_binds=runtime[i][j]),
-                                  "call f(%s): %s next to the def, %s from the importing module (CPython %s)" % (
-                                      c, "rejected" if a else "accepted", "rejected" if b else "accepted",
-                                      "binds it" if runtime[i][j] else "raises TypeError"),
-                                  cls=dcls, conforms=conforms, stream="calls")
+        if (sig_bad or call_bad) and m is not None and m["D"] != "-":
+            # a header may lie in several classes: name the one that explains the failure, and judge conformance to the model on
+            # the aspect that class is about (names / kinds for dunderPosOnly, annotation values for the annotation classes)
+            nk, av = _nk, _av
+            classes = m["D"].split(",")
+            mdef, minsp = strip_errs(m["def"]), strip_errs(m["insp"])
+            if "dunderPosOnly" in classes and nk(idef) != nk(iinsp):
+                dcls = "dunderPosOnly"
+                conforms = nk(idef) == nk(mdef) and nk(iinsp) == nk(minsp)
+            else:
+                rest = [c for c in classes if c != "dunderPosOnly"]
+                if rest:
+                    dcls = rest[0]
+                    conforms = av(idef) == av(mdef) and av(iinsp) == av(minsp)
+        if sig_bad:
+            ctx.candidate(case, "signature from the def node differs from the signature from the function object: def=%s inspect=%s"
+                          % (idef, iinsp), cls=dcls, conforms=conforms, stream="sig")
+        for j, c, a, b in call_bad:
+            ctx.candidate(dict(case, call="f(%s)" % c, cpython_binds=runtime[i][j]),
+                          "call f(%s): %s next to the def, %s from the importing module (CPython %s)" % (
+                              c, "rejected" if a else "accepted", "rejected" if b else "accepted",
+                              "binds it" if runtime[i][j] else "raises TypeError"),
+                          cls=dcls, conforms=conforms, stream="calls")
 
 
 # ------------------------------------------------------------------ extra vocabulary: implementation only
@@ -1275,8 +1345,8 @@ def gen_all(ctx):
     rng = ctx.rng
     anns = exhaustive_terms()
     ctx.extra["exhaustive_part"] = "%d annotation expressions of depth <= 1" % len(anns)
-    anns += depth2_terms(rng, ctx.n(1500, 20000))
-    for _ in range(ctx.n(1200, 20000)):
+    anns += depth2_terms(rng, ctx.n(3000, 25000))
+    for _ in range(ctx.n(2500, 40000)):
         anns.append(gen_term(rng, rng.choice([2, 2, 3])))
     seen, out = set(), []
     for t in anns:
@@ -1291,7 +1361,7 @@ def gen_all(ctx):
         rng.shuffle(sigs)
         sigs = sigs[:cap]
         ctx.extra["exhaustive_part"] += " (sampled down to %d by the seed)" % cap
-    for _ in range(ctx.n(500, 6000)):
+    for _ in range(ctx.n(900, 9000)):
         sigs.append(random_header(rng, rng.choice([0, 1, 1, 2])))
     return out, sigs
 
